@@ -22,7 +22,9 @@ def run_one(d, all_checks=False, tier="quick"):
     patch = os.path.join(d, "patch.diff")
     wt = tempfile.mkdtemp(prefix="mx-", dir="/tmp")
     os.rmdir(wt)
-    subprocess.run(["git", "-C", "/repo", "worktree", "add", "-q", wt, "HEAD"], check=True)
+    # meta["apply_to"]: a change written against an earlier repository commit that a later fix: commit has made
+    # unreachable (e.g. the library now refuses the parameter regime it needs) is applied to that commit instead of HEAD
+    subprocess.run(["git", "-C", "/repo", "worktree", "add", "-q", "--detach", wt, meta.get("apply_to", "HEAD")], check=True)
     res = {}
     try:
         ap = subprocess.run(["git", "-C", wt, "apply", patch], capture_output=True, text=True)
@@ -66,11 +68,20 @@ def main():
             json.dump(meta, open(os.path.join(d, "meta.json"), "w"), indent=1)
             rows.append((base, name, meta["property"], caught, missed, incon, res.get("_apply")))
             print(base, name, "caught by", caught, "missed by", missed, "inconclusive", incon, res.get("_apply") or "", flush=True)
+    # the table is rebuilt from EVERY meta.json (also those not run in this invocation)
     with open(os.path.join(ROOT, "seeded", "CATCH_MATRIX.md"), "w") as f:
         f.write("# Which checks catch which changes (quick tier, run by tools/matrix.py against throw-away worktrees)\n\n")
-        f.write("| kind | change | property | caught by | run but missed |\n|---|---|---|---|---|\n")
-        for base, name, prop, caught, missed, incon, ap in rows:
-            f.write(f"| {base} | {name} | {prop} | {', '.join(caught) or '-'} | {', '.join(missed) or '-'}{' (apply failed)' if ap else ''} |\n")
+        f.write("| kind | change | property | caught by | run but missed | note |\n|---|---|---|---|---|---|\n")
+        for base in ("seeded", "regressions"):
+            bd = os.path.join(ROOT, base)
+            for name in sorted(os.listdir(bd)) if os.path.isdir(bd) else []:
+                mp = os.path.join(bd, name, "meta.json")
+                if not os.path.exists(mp):
+                    continue
+                m = json.load(open(mp))
+                caught = [c["check"] for c in m.get("caught_by", [])]
+                note = ("applied to " + m["apply_to"] + ": " + m.get("apply_to_reason", "")) if m.get("apply_to") else ""
+                f.write(f"| {base} | {name} | {m['property']} | {', '.join(caught) or '-'} | {', '.join(m.get('missed_by', [])) or '-'} | {note} |\n")
 
 
 if __name__ == "__main__":
